@@ -179,6 +179,7 @@ def main(argv=None):
     a = ap.parse_args(argv)
     t0 = time.time()
     seed = int(os.environ.get('VERIF_SEED', '0') or 0)
+    os.environ['PYVC_TIER'] = a.tier           # contract modules register larger bounded stand-ins in the thorough tier
     try:
         reg = load_contracts()
     except Exception:
